@@ -1,8 +1,6 @@
 """C22 — interface connections are transactional and persisted state matches memory (DESIGN.md §2 C22)."""
 
 KEYS = {
-    "disconnect/main/active": "disconnect-setup-fails-after-repo-disconnect",
-    "forget/main/active": "disconnect-setup-fails-after-repo-disconnect",
     "connect/after/hotplug-gone": "connect-undo-drops-hotplug-gone",
     "forget/after/undesired": "forget-undo-reconnects-inactive",
     "forget/after/hotplug-gone": "forget-undo-reconnects-inactive",
@@ -18,9 +16,19 @@ def classify(case):
     last = steps[-1]
     if last.get("viol") != viol or any(s.get("viol") for s in steps[:-1]):
         return None
-    op = last.get("op") or {}
-    if viol.startswith("connect/main/") and op.get("k") == 2:
-        return "connect-setup-fails-slot-profile-stale"
+    op, pre, post = last.get("op") or {}, last.get("pre") or {}, last.get("post") or {}
+    # second security setup of the main task fails: conns AND repository must be back, only a profile may be stale.
+    # (A repository that lost the connection is the repaired finding 8, fixed: 63d7dd9 -> not keyed, a VIOLATION.)
+    rolled_back = pre.get("conns") == post.get("conns") and (pre.get("repo") or []) == (post.get("repo") or [])
+    if op.get("fail") == "main" and op.get("k") == 2 and rolled_back:
+        if viol.startswith("connect/main/") and (pre.get("prof-consumer") or []) == (post.get("prof-consumer") or []):
+            return "connect-setup-fails-slot-profile-stale"
+        if (viol in ("disconnect/main/active", "forget/main/active")
+                and (pre.get("prof-producer") or []) == (post.get("prof-producer") or [])):
+            # same mechanism on the disconnect side (plug snap's profile regenerated without the connection, then the
+            # connection is put back): reported under the existing stale-profile key, see notes/C22.md
+            return "connect-setup-fails-slot-profile-stale"
+        return None
     return KEYS.get(viol)
 
 
@@ -51,7 +59,7 @@ SPEC = dict(
         "the security backend is the suite's TestSecurityBackend; a profile is abstracted to the set of connections of the snap at its last successful Setup",
     ],
     assumptions=[
-        "PARTIAL: the full statement is false in four classes (KNOWN_FINDINGS: disconnect-setup-fails-after-repo-disconnect, connect-setup-fails-slot-profile-stale, connect-undo-drops-hotplug-gone, forget-undo-reconnects-inactive); theorems are guarded by `excluded`, each class has a `_refuted` witness and is reproduced on the real code on every run",
+        "PARTIAL: the full statement is false in three classes (KNOWN_FINDINGS: connect-setup-fails-slot-profile-stale — which here also covers the mirror case of a disconnect task whose second setup fails —, connect-undo-drops-hotplug-gone, forget-undo-reconnects-inactive; the former fourth class, finding 8, is repaired by /repo commit 63d7dd9 and kept as a regression replay); theorems are guarded by `excluded`, each class has a `_refuted` witness and is reproduced on the real code on every run",
         "PARTIAL: snap install/remove, auto-connect task generation (doAutoConnect), gadget connections, hotplug add/remove tasks and failures inside UNDO handlers are not modelled and not driven; auto / by-gadget / auto-disconnect / by-hotplug are exercised as flags of the connect / disconnect tasks",
         "both snaps are installed and all plugs and slots exist in the repository throughout (undoDisconnect's missing plug/slot branch and reloadConnections' stale-entry branch are not exercised)",
         "the policy check always allows the connection (no snap-declaration restrictions in the fixtures)",
